@@ -196,7 +196,7 @@ theorem pending_open_leftover_counterexample :
     from a fresh client or server connection (builder options h2 accepts) by any sequence of: polls of the
     connection with any fuel, calls of the user-side handles on the stream layer with ANY arguments (`HandleStep`:
     `send_request`, `send_data`, `send_trailers`, `send_reset`, `reserve_capacity`, `release_capacity`, the
-    `poll_*` functions, clone/drop of handles, `send_response`, `push_request`, …), arbitrary transport events
+    `poll_*` functions including `poll_pushed`, clone/drop of handles, `send_response`, `push_request`, …), arbitrary transport events
     (input, budgets, errors, wakers taken), a change of the polling task, `set_target_window_size` /
     `set_initial_window_size` (≤ 2^31-1), the ping handle's calls, graceful / abrupt shutdown.  In every such
     state the invariant `CInv` holds, and `Connection::poll` answers `Pending` only with `PollParked`: the task's
